@@ -63,6 +63,7 @@ func (t *tracer) engineCase(g *gen, round int) {
 	var sentMu sync.Mutex
 	var sentBytes []byte // everything the engine's stream face wrote, in order
 	var streamFace *face.StreamFace
+	awaitDelivery := func() {} // dummy face: FeedPacket delivers synchronously
 	var eng *basic.Engine
 	var feed func([]byte) error
 	var cleanup func()
@@ -89,7 +90,7 @@ func (t *tracer) engineCase(g *gen, round int) {
 			return
 		}
 		sf := face.NewStreamFace("unix", path, true)
-		tm := basic.NewTimer()
+		tm := dummy.NewTimer() // no real timers: nothing of this case runs after it returns
 		eng = basic.NewEngine(sf, tm, sec.NewSha256IntSigner(tm), passAll)
 		var conn net.Conn
 		acc := make(chan net.Conn, 1)
@@ -105,15 +106,10 @@ func (t *tracer) engineCase(g *gen, round int) {
 			t.line("SAME engine-stream-starts failed ok")
 			return
 		}
-		select {
-		case conn = <-acc:
-		case <-time.After(3 * time.Second):
-			ln.Close()
-			os.RemoveAll(dir)
-			t.line("SAME engine-stream-connects failed ok")
-			return
-		}
+		conn = <-acc // Start() returned: the dial succeeded, so Accept returns; no wall-clock limit (the test timeout is the watchdog)
+		collectorDone := make(chan struct{})
 		go func() { // collect what the engine's face sends (the expressed Interests, then the concurrent senders' packets)
+			defer close(collectorDone)
 			buf := make([]byte, 65536)
 			for {
 				n, err := conn.Read(buf)
@@ -125,15 +121,29 @@ func (t *tracer) engineCase(g *gen, round int) {
 				}
 			}
 		}()
-		feed = func(b []byte) error {
-			_ = conn.SetWriteDeadline(time.Now().Add(3 * time.Second)) // a peer that stopped reading is a failure, not a hang
-			_, err := conn.Write(b)
-			return err
-		}
+		feed = func(b []byte) error { _, err := conn.Write(b); return err }
 		streamFace = sf
-		cleanup = func() { _ = eng.Stop(); conn.Close(); ln.Close(); os.RemoveAll(dir) }
+		// event-driven end of delivery: close our write side; the face's receive loop reads to EOF (every packet before it has
+		// been handed to the engine synchronously) and stops — only then is anything called missing
+		awaitDelivery = func() {
+			if uc, ok := conn.(*net.UnixConn); ok {
+				_ = uc.CloseWrite()
+			}
+			for sf.IsRunning() {
+				time.Sleep(time.Millisecond) // yields; the loop ends on a state change, not on a clock
+			}
+		}
+		cleanup = func() { _ = eng.Stop(); conn.Close(); <-collectorDone; ln.Close(); os.RemoveAll(dir) }
 	}
 	defer cleanup()
+
+	if streamFace != nil {
+		t.concurrentSend(g, streamFace, func() []byte {
+			sentMu.Lock()
+			defer sentMu.Unlock()
+			return append([]byte{}, sentBytes...)
+		})
+	}
 
 	// Interest handler: record only
 	intPrefix := enc.Name{enc.NewStringComponent(8, "eng"), enc.NewStringComponent(8, "int")}
@@ -230,22 +240,8 @@ func (t *tracer) engineCase(g *gen, round int) {
 			return
 		}
 	}
-	// wait until everything was delivered (stream face: asynchronous)
-	deadline := time.Now().Add(3 * time.Second)
-	for {
-		mu.Lock()
-		n := 0
-		for _, it := range items {
-			if it.got {
-				n++
-			}
-		}
-		mu.Unlock()
-		if n == len(items) || time.Now().After(deadline) {
-			break
-		}
-		time.Sleep(2 * time.Millisecond)
-	}
+	// all bytes are written; wait for the face to have consumed them all (EOF), without a clock deciding anything
+	awaitDelivery()
 	// only now: look at what was recorded
 	mu.Lock()
 	defer mu.Unlock()
@@ -269,18 +265,11 @@ func (t *tracer) engineCase(g *gen, round int) {
 		}
 	}
 	t.stats["engine-"+faceKind]++
-	if streamFace != nil {
-		t.concurrentSend(g, streamFace, func() []byte {
-			sentMu.Lock()
-			defer sentMu.Unlock()
-			return append([]byte{}, sentBytes...)
-		})
-	}
 }
 
 // Several goroutines send signed Data (multi-buffer wires) through ONE StreamFace at the same time; the peer frames the
 // byte stream into TLV blocks.  Every packet sent must arrive as one intact block that decodes and validates, and nothing
-// else of type Data may arrive.  A deadline bounds the wait; what is missing when it expires is reported by packet.
+// else of type Data may arrive.  The wait ends when the number of octets sent has been received (no wall-clock limit).
 func (t *tracer) concurrentSend(g *gen, sf *face.StreamFace, received func() []byte) {
 	sp := spec.Spec{}
 	kn := enc.Name{enc.NewStringComponent(8, "k")}
@@ -338,9 +327,10 @@ func (t *tracer) concurrentSend(g *gen, sf *face.StreamFace, received func() []b
 		t.line("SAME engine-stream-concurrent-send-accepted refused accepted")
 		return
 	}
-	deadline := time.Now().Add(3 * time.Second)
-	for len(received())-before < total && time.Now().Before(deadline) {
-		time.Sleep(2 * time.Millisecond)
+	// every Send has returned: all octets are in the socket; wait for the collector to have read them all (a count of
+	// octets, not a clock, ends the wait — octets cannot get lost on a unix socket, only mixed up)
+	for len(received())-before < total {
+		time.Sleep(time.Millisecond)
 	}
 	// frame what arrived after `before`
 	stream := received()[before:]
